@@ -414,6 +414,75 @@ func (p *Pair) ShapeGoRange(c *Case, rs Resolved, lo, hi int, flags int) (out []
 	return
 }
 
+// ShapeGoReused shapes the item of the case on a buffer that has just served the same
+// text, font and segment properties under other feature lists (every feature made
+// global, every feature cut to a half-open range on either side, no feature): the plan
+// cache of a Buffer is keyed by those lists, and a key that confuses two of them hands
+// out the wrong plan. Returns "" when the output equals fresh (the output of a new buffer).
+func (p *Pair) ShapeGoReused(c *Case, rs Resolved, fresh []G) (diff string) {
+	if len(c.Feats) == 0 {
+		return ""
+	}
+	lo, hi := c.itemRange()
+	n := hi - lo
+	variants := make([][]Feat, 4)
+	for _, f := range c.Feats {
+		g := f
+		g.Start, g.End = 0, -1
+		variants[0] = append(variants[0], g)
+		h := f
+		h.Start, h.End = 0, lo+(n+1)/2
+		variants[1] = append(variants[1], h)
+		t := f
+		t.Start, t.End = lo+n/2, -1
+		variants[2] = append(variants[2], t)
+	}
+	pv, where := vrun.Catch(func() {
+		hf := p.goFont(c)
+		buf := harfbuzz.NewBuffer()
+		fill := func() {
+			buf.Clear()
+			if len(c.Before) > 0 {
+				buf.AddRunes(c.Before, len(c.Before), 0)
+			}
+			buf.AddRunes(c.Text, lo, hi-lo)
+			if len(c.After) > 0 {
+				buf.AddRunes(c.After, 0, 0)
+			}
+			buf.Flags = harfbuzz.ShappingOptions(c.Flags)
+			buf.ClusterLevel = harfbuzz.ClusterLevel(c.CL)
+			buf.Props.Direction = harfbuzz.Direction(rs.Dir)
+			buf.Props.Script = language.Script(rs.Script)
+			if c.Lang != "" {
+				buf.Props.Language = language.NewLanguage(c.Lang)
+			}
+		}
+		for _, v := range variants {
+			cc := *c
+			cc.Feats = v
+			fill()
+			buf.Shape(hf, goFeatures(&cc))
+		}
+		fill()
+		buf.Shape(hf, goFeatures(c))
+		out := make([]G, len(buf.Info))
+		for i, in := range buf.Info {
+			out[i] = G{GID: uint32(in.Glyph), Cluster: in.Cluster, Mask: in.Mask & 7}
+			if i < len(buf.Pos) {
+				ps := buf.Pos[i]
+				out[i].XAdv, out[i].YAdv, out[i].XOff, out[i].YOff = ps.XAdvance, ps.YAdvance, ps.XOffset, ps.YOffset
+			}
+		}
+		if !Equal(out, fresh) {
+			diff = "reused: " + Fmt(out)
+		}
+	})
+	if pv != nil {
+		return fmt.Sprintf("panic on the reused buffer only: %v at %s", pv, where)
+	}
+	return diff
+}
+
 // ShapeGo shapes the item of the case on the Go side.
 func (p *Pair) ShapeGo(c *Case, rs Resolved) ([]G, any, string) {
 	lo, hi := c.itemRange()
